@@ -73,7 +73,7 @@ if __name__ == "__main__":
     try:
         for c in checks:
             code = f"import sys; sys.path[:0]=['/verif',{root + '/src'!r}]; import stereomolgraph; assert stereomolgraph.__file__.startswith({root!r}); from vp import seedrun; import json; print('@@'+json.dumps(seedrun.detect({c!r}), default=str))"
-            q = subprocess.run(["/verif/.venv/bin/python", "-c", code], capture_output=True, text=True, env=dict(os.environ, PYTHONHASHSEED="0", PYTHONPATH=f"/verif:{root}/src"))
+            q = subprocess.run(["/verif/.venv/bin/python", "-c", code], capture_output=True, text=True, env=dict(os.environ, PYTHONHASHSEED="0", PYTHONPATH=f"/verif:{root}/src", VERIF_SRC=f"{root}/src"))
             line = [l for l in q.stdout.split("\n") if l.startswith("@@")]
             out[c] = json.loads(line[0][2:]) if line else {"error": (q.stdout + q.stderr)[-500:]}
     finally:
